@@ -2,7 +2,7 @@
    Scheduler bookkeeping at message level (Model/Master.v, the same wakeups logic is used by
    the nested scheduler, whose `when <= time` rule is modelled in Model/Sim.v).
    Property theorems only. *)
-From TV Require Import Base Model.Wiring Model.Ticker Model.Master Proofs.MasterP Model.PyLib Gen.SourceFuns Proofs.GenWakeupsP.
+From TV Require Import Base Model.Wiring Model.Ticker Model.Master Proofs.MasterP Model.PyLib Gen.SourceFuns Proofs.GenWakeupsP Proofs.GenNestedEpilogueP.
 Open Scope Z_scope.
 
 (* get_first_wakeups: the time chosen is the earliest pending one, and the components chosen are
@@ -93,3 +93,10 @@ Proof. exact first_wakeups_master_is_source. Qed.
 
 Theorem C06_add_wakeup_is_source : forall (w : list (comp * Z)) c t, gen_add_wakeup w c t = upd c t w.
 Proof. exact add_wakeup_is_source. Qed.
+
+(* ... and the callback a nested scheduler hands to the enclosing one after its tick IS the earliest wakeup left
+   ([Sim.min_wake], as in [on_tick_level] of Model/Sim.v): the end of NestedScheduler.on_tick, regenerated from /repo *)
+Theorem C06_nested_callback_is_source : forall (wk : list (comp * Z)) (ints : list comp) (done : bool) (comps : list comp)
+        (inch outch : list (positive * Z)) (time : Z) (chg : list (positive * Z)),
+  gen_nested_epilogue wk ints done comps inch outch time chg = (outch, TV.Model.Sim.min_wake wk).
+Proof. exact nested_epilogue_is_source. Qed.
